@@ -300,6 +300,64 @@ def reference_block(state, ttno, a, b):
     return np.einsum(*args, [L("k", b), L("h", b), L("b", b)])
 
 
+# ---- histories of in-place EDITS of one state / operator pair between initialisations of the cache (kind "edit") ----------
+def edit_labels_trace(case):
+    """identifier (label) of every node index after each step of the history, by plain bookkeeping on the case (no library):
+    list with one label list per step (the labels that hold AFTER that step). The rooted tree itself (parents) never changes:
+    the edits rename nodes, exchange the identifiers of two nodes, or contract a child with its parent and split the pair
+    again (same legs on either side) under new identifiers."""
+    cur = list(case["labels"])
+    out = []
+    for st in case["steps"]:
+        op = st["op"]
+        if op == "rename":
+            cur[st["node"]] = st["new"]
+        elif op == "swap":
+            a, b = st["a"], st["b"]
+            cur[a], cur[b] = cur[b], cur[a]
+        elif op == "merge_split":
+            cur[case["parents"][st["child"]]] = st["new_parent"]
+            cur[st["child"]] = st["new_child"]
+        out.append(list(cur))
+    return out
+
+
+def edit_step_text(case, k, labels_before):
+    st = case["steps"][k]
+    op = st["op"]
+    if op == "init":
+        return "init_cache_but_one(left out: %s)" % ("update_path[0]" if st["node"] == "first" else labels_before[st["node"]])
+    if op == "rename":
+        return "change_node_identifier(%s -> %s) on state and operator" % (labels_before[st["node"]], st["new"])
+    if op == "swap":
+        return "identifiers of %s and %s exchanged (three change_node_identifier calls via %s) on state and operator" % (
+            labels_before[st["a"]], labels_before[st["b"]], st["tmp"])
+    if op == "merge_split":
+        return "contract_nodes(%s, %s) as %s + %s back into parent %s / child %s on state and operator" % (
+            labels_before[case["parents"][st["child"]]], labels_before[st["child"]], st["tmp"],
+            "split_node_svd" if st["split"] == "svd" else "split_node_qr(SplitMode.%s)" % st["split"][3:], st["new_parent"], st["new_child"])
+    return op
+
+
+def check_cache_blocks(state, ham, cache):
+    """every block of the cache that sits on an edge of the state's tree against the naive einsum reference (relative 1e-8)"""
+    import numpy as np
+    bad = []
+    for a, b in list(cache.keys()):
+        node = state.nodes.get(a)
+        if node is None or b not in ([node.parent] + list(node.children)):
+            continue          # not an edge: the key check reports it
+        got = np.asarray(cache.get_entry(a, b))
+        ref = reference_block(state, ham, a, b)
+        if got.shape != ref.shape:
+            bad.append([nid(a), nid(b), "shape %s instead of %s" % (list(got.shape), list(ref.shape))])
+        else:
+            dev = float(np.max(np.abs(got - ref))) if got.size else 0.0
+            if not dev <= 1e-8 * (1.0 + float(np.max(np.abs(ref))) if ref.size else 1.0):
+                bad.append([nid(a), nid(b), "max abs deviation %.3e" % dev])
+    return bad
+
+
 class C17(Prop):
     id = "C17"
     title = "tree navigation and the TDVP sweep order"
@@ -331,7 +389,16 @@ class C17(Prop):
             "leaves_under_node, find_subtree_size_of_node and find_path_to_root of EVERY node against graph search; exact model tie up to "
             "256 (quick) / 420 (thorough) nodes (beyond 128 nodes the distance tables are tied for two centres and the caching path / "
             "cache keys for update_path[0] only), larger ones are judged by the graph-search oracle alone; further real TTNS+TTNO cases "
-            "(4 quick / 24 thorough) on 10-500 nodes, half of them with a prepared state. non-trivial = at least 3 nodes; distinct by case content")
+            "(4 quick / 24 thorough) on 10-500 nodes, half of them with a prepared state; EDIT histories (kind edit, 40 quick / 400 thorough): ONE real "
+            "TTNS + TTNO pair (2-9 nodes all shapes, every fifth 10-20 nodes of small degree; random or identity identifiers, random attach order) "
+            "whose tree is edited IN PLACE between 2-4 initialisations SandwichCache.init_cache_but_one (left-out node: update_path[0] of the "
+            "current tree, a deepest leaf or any node; 80% the same node throughout): change_node_identifier of any node (root, left-out node, "
+            "inner nodes, leaves; to a fresh identifier or one that was in use earlier), exchange of the identifiers of two nodes, contract_nodes "
+            "of a child with its parent + split_node_svd / split_node_qr back into two nodes with new / exchanged / the same / one new identifier, "
+            "deepcopy of both objects and continuing on the copies; the rooted tree (parents) never changes, the expected identifiers are kept by "
+            "plain bookkeeping on the case; at every initialisation: the ordered trees state and operator hold, the update path, the cache keys "
+            "in order (exact tie with update_path / cache_keys of the model on the tree held), the BFS oracle on the edited tree of the case and "
+            "every block against the naive einsum contraction of the current tensors; any exception of a step is a violation. non-trivial = at least 3 nodes; distinct by case content")
     clauses = [
         ("F", "linearise: permutation of the nodes, every child before its parent, root last (C17_linearise_perm, _child_before_parent, _root_last)"),
         ("F", "find_path_to_root: starts at the node, ends at the root, consecutive entries child->parent, defined exactly on the nodes "
@@ -368,6 +435,11 @@ class C17(Prop):
               "states taken over from an earlier object after time steps): the sweep order and the cache depend on the rooted tree only "
               "— BFS oracle on the tree of the case, exact tie on the ordered tree the library holds (update_path of the tree handed in, "
               "cache_keys of the tree the object holds when the cache is built), same rooted tree as an unordered tree"),
+        ("V", "the initial environment cache of a state / operator pair whose tree was EDITED IN PLACE after an earlier initialisation "
+              "(nodes renamed, identifiers exchanged, neighbouring nodes contracted and split again under other names, objects deep-copied; "
+              "node count, root identifier and left-out node mostly unchanged): again exactly one block per edge of the CURRENT tree, each "
+              "pointing toward the left-out node, created after the blocks it is contracted from, block values = naive contraction of the "
+              "current tensors; update path and key order tied exactly to the model on the tree the state holds"),
     ]
     trusted_base = ["node identifiers are mapped to natural numbers by the harness (the library uses strings); the key order of the node "
                     "dictionary is an explicit input of get_leaves/nearest_neighbours",
@@ -452,6 +524,75 @@ class C17(Prop):
         return {"kind": "tdvp", "scheme": scheme, "trees": trees, "objects": objs,
                 "interleave": rng.random() < 0.3 and not any("from" in o for o in objs), "seed": rng.randrange(10 ** 6)}
 
+    def _edit_history(self, rng, k):
+        """one state / operator pair whose tree is EDITED IN PLACE between initialisations of the environment cache: rename a
+        node (any node: the root, the left-out node, inner nodes, leaves; to a fresh identifier or to one that was in use
+        earlier), exchange the identifiers of two nodes, contract a child with its parent and split again under new /
+        exchanged / the same identifiers, continue on a deepcopy; the cache is initialised before the first and after every
+        group of edits, mostly for the same left-out node."""
+        shapes = ["uniform", "deep", "bushy", "chainroot", "binary", "ties"]
+        n = rng.choice([2, 3, 3, 4, 4, 5, 5, 6, 7, 8, 9]) if k % 5 else rng.randrange(10, 21)
+        # (ten and more nodes: shapes of small degree only, the naive reference contraction of a block is exponential in the degree)
+        par = random_parents_shaped(rng, n, shapes[k % len(shapes)] if n < 10 else rng.choice(["deep", "binary", "ties"]))
+        order = topo_order(rng, par) if rng.random() < 0.5 else list(range(n))
+        labels = list(range(n)) if rng.random() < 0.25 else rng.sample(range(0, 3000), n)
+        cur, retired = list(labels), []
+        nxt = [3000]
+
+        def fresh():
+            if retired and rng.random() < 0.3:
+                return retired.pop(rng.randrange(len(retired)))
+            nxt[0] += rng.randrange(1, 40)
+            return nxt[0]
+        d = depth_profile(par)
+        deepest = [i for i in range(n) if d[i] == max(d)]
+
+        def pick_left_out():
+            r = rng.random()
+            return "first" if r < 0.45 else rng.choice(deepest) if r < 0.7 else rng.randrange(n)
+        x = pick_left_out()
+        steps = [{"op": "init", "node": x}]
+        for _ in range(rng.choice([1, 1, 2, 3])):
+            for _ in range(rng.choice([1, 1, 2])):
+                r = rng.random()
+                if r < 0.45 or n < 2:
+                    i = rng.randrange(n)
+                    new = fresh()
+                    retired.append(cur[i])
+                    cur[i] = new
+                    steps.append({"op": "rename", "node": i, "new": new})
+                elif r < 0.62:
+                    a, b = rng.sample(range(n), 2)
+                    steps.append({"op": "swap", "a": a, "b": b, "tmp": fresh()})
+                    cur[a], cur[b] = cur[b], cur[a]
+                elif r < 0.92:
+                    c = rng.randrange(1, n)
+                    pidx = par[c]
+                    how = rng.choice(["new", "new", "exchanged", "same", "parent_only"])
+                    if how == "new":
+                        npl, ncl = fresh(), fresh()
+                    elif how == "exchanged":
+                        npl, ncl = cur[c], cur[pidx]
+                    elif how == "same":
+                        npl, ncl = cur[pidx], cur[c]
+                    else:
+                        npl, ncl = fresh(), cur[c]
+                    tmp = fresh()
+                    for old in (cur[pidx], cur[c]):
+                        if old not in (npl, ncl):
+                            retired.append(old)
+                    cur[pidx], cur[c] = npl, ncl
+                    steps.append({"op": "merge_split", "child": c, "tmp": tmp, "new_parent": npl, "new_child": ncl,
+                                  # (QR may raise the bond dimension to min(rows, columns): small trees only; the truncated
+                                  #  SVD split is capped at the bond dimension the edge had before)
+                                  "split": rng.choice(["qr_KEEP", "qr_REDUCED", "svd"]) if n <= 4 else "svd"})
+                else:
+                    steps.append({"op": "copy"})
+            if rng.random() < 0.2:
+                x = pick_left_out()
+            steps.append({"op": "init", "node": x})
+        return {"kind": "edit", "parents": par, "labels": labels, "attach": order, "steps": steps, "seed": rng.randrange(10 ** 6)}
+
     def generate(self, ctx, stream, budget_scale=1):
         rng = ctx.rng(stream)
         cases = []
@@ -514,6 +655,10 @@ class C17(Prop):
             if rng.random() < 0.5:
                 c["prepare"] = random_prepare(rng, par)
             cases.append(c)
+        # one state / operator pair EDITED IN PLACE between initialisations of the cache (own stream: older families keep their cases)
+        rng_e = ctx.rng(stream + ":edit")
+        for k in range(ctx.scale(40, 400) * budget_scale):
+            cases.append(self._edit_history(rng_e, k))
         return cases
 
     @staticmethod
@@ -551,6 +696,16 @@ class C17(Prop):
                 c["tdvp:objects-sharing-a-state-object"] += len(x["objects"]) - len({o["tree"] for o in x["objects"]})
                 continue
             par = x["parents"]
+            if x["kind"] == "edit":
+                ops = [st["op"] for st in x["steps"]]
+                c["edit:initialisations"] += ops.count("init")
+                for o in ("rename", "swap", "merge_split", "copy"):
+                    c["edit:" + o] += ops.count(o)
+                inits = [st["node"] for st in x["steps"] if st["op"] == "init"]
+                c["edit:histories-with-the-same-left-out-node-throughout"] += len(set(map(str, inits))) == 1
+                c["edit:histories-that-rename-the-root"] += any(st["op"] == "rename" and st["node"] == 0 for st in x["steps"])
+                c["edit:histories-keeping-root-and-node-count-while-another-identifier-changes"] += any(
+                    (st["op"] == "rename" and st["node"] != 0) or st["op"] == "swap" and 0 not in (st["a"], st["b"]) for st in x["steps"])
             if x.get("prepare"):
                 self._count_prepare(c, "real", x["prepare"], par)
             if sum(1 for p in par if p == 0) == 1:
@@ -830,11 +985,71 @@ class C17(Prop):
                         break
         return ob
 
+    def _impl_edit(self, case):
+        import random
+        from pytreenet.time_evolution.time_evo_util.update_path import TDVPUpdatePathFinder
+        from pytreenet.contractions.sandwich_caching import SandwichCache
+        from pytreenet.util.tensor_splitting import SplitMode, SVDParameters
+        rng = random.Random(case["seed"])
+        ttns = build_labelled_ttns(case, rng)
+        idsl = sorted(ttns.nodes)
+        ham = util.rand_ham(rng, idsl, util.phys_dims(ttns), min(len(idsl) + 1, 6), hermitian=True, max_support=2)
+        ttno = util.TTNO.from_hamiltonian(copy.deepcopy(ham), ttns)
+        par = case["parents"]
+        cur = list(case["labels"])
+        ob = {"phases": []}
+        for k, st in enumerate(case["steps"]):
+            op = st["op"]
+            try:
+                if op == "init":
+                    ph = {"step": k}
+                    ob["phases"].append(ph)
+                    ph["rtree"] = util.ttn_to_rtree(ttns, {i: nid(i) for i in ttns.nodes})[0]
+                    ph["rtree_op"] = util.ttn_to_rtree(ttno, {i: nid(i) for i in ttno.nodes})[0]
+                    ph["path"] = [nid(y) for y in TDVPUpdatePathFinder(ttns).find_path()]
+                    ph["left_out"] = ph["path"][0] if st["node"] == "first" else cur[st["node"]]
+                    cache = SandwichCache.init_cache_but_one(ttns, ttno, sid(ph["left_out"]))
+                    ph["keys"] = [[nid(a), nid(b)] for a, b in cache.keys()]
+                    ph["bad_blocks"] = check_cache_blocks(ttns, ttno, cache)
+                elif op == "rename":
+                    for T in (ttns, ttno):
+                        T.change_node_identifier(sid(st["new"]), sid(cur[st["node"]]))
+                    cur[st["node"]] = st["new"]
+                elif op == "swap":
+                    a, b = st["a"], st["b"]
+                    for T in (ttns, ttno):
+                        T.change_node_identifier(sid(st["tmp"]), sid(cur[a]))
+                        T.change_node_identifier(sid(cur[a]), sid(cur[b]))
+                        T.change_node_identifier(sid(cur[b]), sid(st["tmp"]))
+                    cur[a], cur[b] = cur[b], cur[a]
+                elif op == "merge_split":
+                    c = st["child"]
+                    pid, cid = sid(cur[par[c]]), sid(cur[c])
+                    for T in (ttns, ttno):
+                        sp, sc = T.legs_before_combination(pid, cid)
+                        dim = int(T.tensors[cid].shape[T.nodes[cid].neighbour_index(pid)])
+                        T.contract_nodes(pid, cid, new_identifier=sid(st["tmp"]))
+                        if st["split"] == "svd":
+                            T.split_node_svd(sid(st["tmp"]), sp, sc, u_identifier=sid(st["new_parent"]), v_identifier=sid(st["new_child"]),
+                                             svd_params=SVDParameters(max_bond_dim=dim, rel_tol=1e-13, total_tol=1e-13))
+                        else:
+                            T.split_node_qr(sid(st["tmp"]), sp, sc, q_identifier=sid(st["new_parent"]), r_identifier=sid(st["new_child"]),
+                                            mode=getattr(SplitMode, st["split"][3:]))
+                    cur[par[c]], cur[c] = st["new_parent"], st["new_child"]
+                elif op == "copy":
+                    ttns, ttno = copy.deepcopy(ttns), copy.deepcopy(ttno)
+            except Exception as e:  # noqa
+                import traceback
+                ob["err"] = {"step": k, "what": f"{type(e).__name__}: {e}"[:200], "tb": traceback.format_exc()[-500:]}
+                break
+        return ob
+
     def impl(self, ctx, cases):
         out = []
         for c in cases:
             try:
-                out.append(self._impl_real(c) if c["kind"] == "real" else self._impl_tdvp(c) if c["kind"] == "tdvp" else self._impl_struct(c))
+                out.append(self._impl_real(c) if c["kind"] == "real" else self._impl_tdvp(c) if c["kind"] == "tdvp" else
+                           self._impl_edit(c) if c["kind"] == "edit" else self._impl_struct(c))
             except Exception as e:  # noqa
                 import traceback
                 out.append({"exception": f"{type(e).__name__}: {e}", "tb": traceback.format_exc()[-1500:]})
@@ -864,6 +1079,12 @@ class C17(Prop):
         if case["kind"] == "real":
             tl = util.coq_rtree(tuple_tree(ob["rtree"]))
             return f"(let t := {tl} in (update_path t, tdvp_cache_keys t))"
+        if case["kind"] == "edit":
+            # per completed initialisation: the model on the ordered tree the state holds at that moment
+            phs = [ph for ph in ob["phases"] if "keys" in ph]
+            if not phs:
+                return "(@nil (option (list nat) * option (list (nat * nat))))"
+            return coq_list(phs, lambda ph: f"(let t := {util.coq_rtree(tuple_tree(ph['rtree']))} in (update_path t, cache_keys t {cn(ph['left_out'])}))")
         tl = util.coq_rtree(case_rtree(case))
         t = "t"
         cen = ob["centres"]
@@ -1038,6 +1259,28 @@ class C17(Prop):
                 if "err" in rec:
                     return f"TDVP object {j} ({o['algo']} on tree {o['tree']}): {rec['err']}; the model gives the path {pm}"
             return None
+        if case["kind"] == "edit":
+            trace = edit_labels_trace(case)
+
+            def unordered(t):
+                return (t[0], sorted(unordered(c) for c in t[1]))
+            phs = [ph for ph in ob["phases"] if "keys" in ph]
+            for ph, (up_m, keys_m) in zip(phs, mo):
+                where = f"initialisation at step {ph['step']} of the history"
+                want_t = unordered(case_rtree({"parents": case["parents"], "labels": trace[ph["step"]], "attach": case["attach"]}))
+                if unordered(tuple_tree(ph["rtree"])) != want_t:
+                    return f"{where}: the state does not hold the edited tree of the case: {ph['rtree']}"
+                if unordered(tuple_tree(ph["rtree_op"])) != want_t:
+                    return f"{where}: the operator does not hold the edited tree of the case: {ph['rtree_op']}"
+                pm = None if up_m is None else list(up_m[1])
+                if ph["path"] != pm:
+                    return f"{where}: update path {ph['path']}, model {pm}"
+                km = None if keys_m is None else [list(p) for p in keys_m[1]]
+                if ph["keys"] != km:
+                    return f"{where}: cache keys (left out {ph['left_out']}) {ph['keys']}, model {km}"
+            if "err" in ob:
+                return f"step {ob['err']['step']} ({case['steps'][ob['err']['step']]}) raised {ob['err']['what']} where the model runs"
+            return None
         if case["kind"] == "real":
             up_m, keys_m = mo
             want = {str(i): p for i, p in enumerate(case["parents"])}
@@ -1175,6 +1418,37 @@ class C17(Prop):
                                 f"state and operator over the subtree behind the edge ({how})")
                 if "err" in rec:
                     return f"{who}: {rec['err']}"
+            return None
+        if case["kind"] == "edit":
+            trace = edit_labels_trace(case)
+
+            def told(upto):
+                labs = [case["labels"]] + trace
+                return (f"tree {case_rtree(case)}; history on ONE state / operator pair: " +
+                        "; ".join(edit_step_text(case, k, labs[k]) for k in range(upto + 1)))
+            for ph in ob["phases"]:
+                if "keys" not in ph:
+                    continue
+                k = ph["step"]
+                adj, root, parent = graph_of({"parents": case["parents"], "labels": trace[k]})
+                up = ph["path"]
+                if not set(up) <= set(adj):
+                    return f"{told(k)}: update path {up} contains identifiers that are not nodes of the edited tree"
+                keys = [tuple(q) for q in ph["keys"]]
+                if any(a not in adj or b not in adj[a] for a, b in keys):
+                    return f"{told(k)}: the cache holds blocks that belong to no edge of the edited tree {sorted(parent.items())}: {keys}"
+                w = self._oracle_update_and_cache(adj, root, parent, up, [(ph["left_out"], keys)])
+                if w:
+                    return f"{told(k)}: {w}"
+                if ph["bad_blocks"]:
+                    a, b, how = ph["bad_blocks"][0]
+                    return (f"{told(k)}: the block ({a},{b}) of the cache is not the contraction of the current state and operator "
+                            f"over the subtree behind the edge ({how})")
+            if "err" in ob:
+                k = ob["err"]["step"]
+                cur = ([case["labels"]] + trace)[k]
+                return (f"{told(k)}: this last step raised {ob['err']['what']}; the tree at that moment is the ordinary rooted tree "
+                        f"{case_rtree({'parents': case['parents'], 'labels': cur, 'attach': case['attach']})}")
             return None
         if case["kind"] == "real":
             par = case["parents"]
